@@ -27,6 +27,18 @@ CHECKS = {
              "asserted to be one of the three legal ones with end<=len; ledger must return to zero after free; (interrupted A, reset, sensitive Y) pairs compared with a new parser; 100 interrupt+reset cycles must not grow. "
              "All 15 producible error codes must be observed or the run is inconclusive.",
         note="trusted: gcc ASan/UBSan, the shim ledger (validated by seeded leaks), 30-min watchdog as the termination criterion"),
+    "C15": dict(
+        level="exploration", design="DESIGN.md §3 C15",
+        technique="runtime monitoring: ASan build on a 256 KiB-stack thread; outcome/error offset compared with an independent token scan; shim high-water marks (live blocks, stack) compared between nesting D+1 and nesting 10D..10^6",
+        text="Every limit D in 1..64,100,1000 x container shapes x boundary reached via only/first/middle/last child x enclosure D-2..D+2 x leaf kinds, one-shot and chunked (~3*10^4 quick), plus hostile "
+             "inputs nested up to 10^6 deep whose peak memory/stack must equal that of nesting D+1; json_tokener_new_ex(D<1) must be refused.",
+        note="trusted: reference tokenizer on generator-valid documents, shim peak counters (stack sampled at allocation time), gcc ASan"),
+    "C16": dict(
+        level="exploration", design="DESIGN.md §3 C16",
+        technique="runtime monitoring with a metamorphic oracle: one documented extension injected at every admissible token position of a valid document; strict/default/strict+trailing outcomes and values compared with the original document's value",
+        text="~2*10^5 (quick) variant texts: every inter-token gap x comment forms, every string/name x single quotes and each control byte, every container x trailing comma, every literal x case forms, "
+             "every number x leading zeros and digit-less exponents, trailing garbage; strict must reject, default must accept with the original value, STRICT|ALLOW_TRAILING_CHARS must report the value end.",
+        note="trusted: reference parser for the original document's value; for digit-less exponents on integers only success is required in default mode"),
 }
 
 NOT_YET = {}
